@@ -25,7 +25,7 @@ RULE = ("(template, substrate, direction, strategy, hydrogen mode) with template
         "hand-made rule, or a synthetic ITS graph planted on a random host; non-trivial = at least one glued result and a "
         "template with >= 2 changed bonds; distinct = distinct (template, substrate, configuration)")
 EXHAUSTIVE = {"quick": False, "thorough": False}
-EXPLANATION = ("25 theorems (coq/props/C03.v) about the Gallina model of SynReactor._glue_graph/_node_glue, _invert_template, _explicit_h, "
+EXPLANATION = ("26 theorems (coq/props/C03.v) about the Gallina model of SynReactor._glue_graph/_node_glue, _invert_template, _explicit_h, "
                "h_to_explicit and SynRule.__init__ (implicit-template mode; default mode for templates without explicit H atoms): for every host, rule and valid match the reactant side of the glued ITS "
                "(on its_decompose, what _to_smarts serialises) is the substrate; element counts incl. hydrogen and total charge agree on both "
                "sides for a balanced rule (and differ by exactly the rule's imbalance otherwise); changed bonds = image of the rule's bonds with "
@@ -56,8 +56,9 @@ TESTED_NOT_PROVED = ["serialisation half: _to_smarts / graph_to_smi (RDKit) — 
                      "results silently dropped by RDKit are counted by the oracle",
                      "rule preparation in the default mode for templates WITH explicit hydrogen atoms (three-step _strip_explicit_h + typesGH refresh): proved only "
                      "that the rule is the template minus some explicit H atoms with all remaining atoms (up to hydrogen counts) and all bonds among them kept "
-                     "(C03_synrule_default_skeleton); WHICH hydrogens are stripped and the rewritten hydrogen counts / h_pairs are modelled and compared on "
-                     "every case (rc / left / right), not proved. Fully proved: implicit-template mode (C03_synrule_implicit) and default mode without "
+                     "(C03_synrule_default_skeleton) and that a kept atom's hydrogen count on a side = number of that side's bonds to the removed atoms "
+                     "(C03_synrule_default_counts); WHICH atoms the three-step procedure removes and the h_pairs are modelled and compared on every case "
+                     "(rc / left / right), not proved. Fully proved: implicit-template mode (C03_synrule_implicit) and default mode without "
                      "explicit H (C03_synrule_default_noH)",
                      "re-matching of the explicit-hydrogen pattern (_get_explicit_map -> VF2): every re-match is checked by match_okb / match_rcb in the "
                      "correspondence, not proved valid or complete (premise of C03_explicit_path)",
@@ -553,7 +554,7 @@ def gen_cases(tier, rng):
     return prepare_all(cases)
 
 
-LEVEL_TEXT = ("Machine-checked proof (Coq, 25 theorems, all closed under the global context) over an executable model of gluing a rule onto a "
+LEVEL_TEXT = ("Machine-checked proof (Coq, 26 theorems, all closed under the global context) over an executable model of gluing a rule onto a "
               "substrate along a match (SynReactor._glue_graph/_node_glue), _invert_template, _explicit_h, h_to_explicit and SynRule.__init__ "
               "(implicit-template mode; default mode for templates without explicit hydrogen atoms): for EVERY substrate graph, rule graph and valid match (boolean hypotheses wf_hostb, wf_rcb, match_rcb) "
               "(a) the reactant molecule graph of the glued ITS is the substrate (same atoms in the same order, same bonds), (b) every element "
